@@ -601,11 +601,29 @@ func CheckTopOuts(o *Obs, p *pgen.Program, m *pgen.Model, r *Report) {
 			return // C13 reports invalid JSON
 		}
 	}
-	gm, _ := got.(map[string]interface{})
 	tokOf := map[string]string{} // canonical producer value -> token
 	for _, tok := range o.tokByPath {
 		tokOf["tok:"+tok] = tok
 	}
+	if m.TopMapped {
+		// mapped top-level call: _outs is the collection of the forks' output records
+		for _, el := range topElements(m, top, got) {
+			if el.problem != "" {
+				r.add("C01", "top-out-value", el.problem, nil)
+				continue
+			}
+			for _, out := range top.Outs {
+				gv, ok := el.got[out.Name]
+				if !ok {
+					r.add("C01", "top-out-absent", "top-level output "+el.where+"."+out.Name+" absent from _outs", nil)
+					continue
+				}
+				compareTop(o, p, r, el.where+"."+out.Name, out.Type, el.exp[out.Name], gv, tokOf)
+			}
+		}
+		return
+	}
+	gm, _ := got.(map[string]interface{})
 	for _, out := range top.Outs {
 		exp := m.TopOuts[out.Name]
 		gv, ok := gm[out.Name]
@@ -615,6 +633,93 @@ func CheckTopOuts(o *Obs, p *pgen.Program, m *pgen.Model, r *Report) {
 		}
 		compareTop(o, p, r, out.Name, out.Type, exp, gv, tokOf)
 	}
+}
+
+// topElement is one fork of a mapped top-level call: the observed output
+// record and the expected value of every output.
+type topElement struct {
+	where   string // [i] or ["key"]
+	dir     string // directory name under outs/
+	got     map[string]interface{}
+	exp     map[string]interface{}
+	problem string
+}
+
+// topElements transposes the model's per-output collections and pairs them
+// with the records of the observed top-level _outs.
+func topElements(m *pgen.Model, top *pgen.Pipeline, got interface{}) []topElement {
+	var els []topElement
+	expOf := func(sel func(coll interface{}) (interface{}, bool)) map[string]interface{} {
+		e := map[string]interface{}{}
+		for _, out := range top.Outs {
+			if v, ok := sel(m.TopOuts[out.Name]); ok {
+				e[out.Name] = v
+			} else {
+				e[out.Name] = pgen.Unknown{}
+			}
+		}
+		return e
+	}
+	switch g := got.(type) {
+	case []interface{}:
+		for i, x := range g {
+			i := i
+			el := topElement{where: fmt.Sprintf("[%d]", i), dir: fmt.Sprintf("%0*d", widthFor(len(g)), i)}
+			gm, ok := x.(map[string]interface{})
+			if !ok {
+				el.problem = fmt.Sprintf("top-level outputs %s is %s, not a record of the outputs", el.where, short(x))
+			}
+			el.got = gm
+			el.exp = expOf(func(coll interface{}) (interface{}, bool) {
+				a, ok := coll.([]interface{})
+				if !ok || i >= len(a) {
+					return nil, false
+				}
+				return a[i], true
+			})
+			els = append(els, el)
+		}
+		// the number of forks
+		for _, out := range top.Outs {
+			if a, ok := m.TopOuts[out.Name].([]interface{}); ok && len(a) != len(g) {
+				els = append(els, topElement{problem: fmt.Sprintf("mapped top-level call recorded %d output records, bindings denote %d forks", len(g), len(a))})
+				break
+			}
+		}
+	case map[string]interface{}:
+		var keys []string
+		for k := range g {
+			keys = append(keys, k)
+		}
+		sort.Strings(keys)
+		for _, k := range keys {
+			k := k
+			el := topElement{where: fmt.Sprintf("[%q]", k), dir: k}
+			gm, ok := g[k].(map[string]interface{})
+			if !ok {
+				el.problem = fmt.Sprintf("top-level outputs %s is %s, not a record of the outputs", el.where, short(g[k]))
+			}
+			el.got = gm
+			el.exp = expOf(func(coll interface{}) (interface{}, bool) {
+				mm, ok := coll.(map[string]interface{})
+				if !ok {
+					return nil, false
+				}
+				v, ok := mm[k]
+				return v, ok
+			})
+			els = append(els, el)
+		}
+		for _, out := range top.Outs {
+			if mm, ok := m.TopOuts[out.Name].(map[string]interface{}); ok && len(mm) != len(g) {
+				els = append(els, topElement{problem: fmt.Sprintf("mapped top-level call recorded %d output records, bindings denote %d forks", len(g), len(mm))})
+				break
+			}
+		}
+	default:
+		els = append(els, topElement{problem: fmt.Sprintf("top-level outputs of a mapped call are %s, not a collection of records", short(got))})
+	}
+	return els
 }
 
 func compareTop(o *Obs, p *pgen.Program, r *Report, where string, t *pgen.Type, exp, got interface{}, tokOf map[string]string) {
